@@ -54,7 +54,8 @@ OnStream(e) == e.stream # -1
 CompNames == {"ampere_sgemm_128x64_nn",
               "void at::native::vectorized_elementwise_kernel<4, at::native::AddFunctor<float> >(int, float)",
               "sm80_xmma_gemm_f32f32",
-              "void cutlass::Kernel<cutlass_80_tensorop>(Params)"}
+              "void cutlass::Kernel<cutlass_80_tensorop>(Params)",
+              "void at::native::vectorized_elementwise_kernel<4, at::native::MulFunctor<float> >(int, float)"}
 CommNames == {"ncclKernel_AllReduce_RING_LL_Sum_float(ncclWorkElem)",
               "ncclDevKernel_AllGather_RING_LL(ncclDevComm*)"}
 MemcpyNames == {"Memcpy HtoD (Pageable -> Device)", "Memcpy DtoH (Device -> Pageable)",
@@ -66,6 +67,15 @@ KClass(name) == IF name \in CommNames THEN "COMMUNICATION"
                 ELSE IF name \in MemcpyNames \cup MemsetNames THEN "MEMORY"
                 ELSE IF name \in CompNames THEN "COMPUTATION"
                 ELSE "OTHER"       \* synchronisation records and anything unknown
+
+\* documented shortening of long names: return type, template arguments and call arguments removed
+ShortName(name) ==
+    CASE name = "void at::native::vectorized_elementwise_kernel<4, at::native::AddFunctor<float> >(int, float)" -> "at::native::vectorized_elementwise_kernel"
+      [] name = "void at::native::vectorized_elementwise_kernel<4, at::native::MulFunctor<float> >(int, float)" -> "at::native::vectorized_elementwise_kernel"
+      [] name = "void cutlass::Kernel<cutlass_80_tensorop>(Params)" -> "cutlass::Kernel"
+      [] name = "ncclKernel_AllReduce_RING_LL_Sum_float(ncclWorkElem)" -> "ncclKernel_AllReduce_RING_LL_Sum_float"
+      [] name = "ncclDevKernel_AllGather_RING_LL(ncclDevComm*)" -> "ncclDevKernel_AllGather_RING_LL"
+      [] OTHER -> name
 
 KernelLaunchNames == {"cudaLaunchKernel", "cudaLaunchKernelExC", "cuLaunchKernel", "hipLaunchKernel",
                       "hipExtModuleLaunchKernel", "runFunction - job_prep_and_submit_for_execution"}
